@@ -27,3 +27,43 @@ Proof.
   intros t size Hwf Hs Hfit. destruct (PItem_proofs.C07_into t size Hwf Hs) as (ret & out & E & Hok & _).
   destruct (Hok Hfit) as [-> ->]. exact E.
 Qed.
+
+(* ---- CBOR sequences (C14): decoding repeatedly at the offset advanced by bytes-read ---- *)
+From CB Require Import PRound_proofs.
+Fixpoint load_seq (L cap : N) (k : nat) (buf : list N) : option (list item * list N) :=
+  match k with
+  | O => Some ([], buf)
+  | S j =>
+      match load L cap buf with
+      | LOk t n =>
+          match load_seq L cap j (skipnN n buf) with
+          | Some (ts, r) => Some (t :: ts, r)
+          | None => None
+          end
+      | _ => None
+      end
+  end.
+
+Lemma bytes_ok_concat_enc ts : Forall wf_item ts -> bytes_ok (concat (map encode_rfc ts)).
+Proof.
+  induction ts as [|t r IH]; intros H; [constructor|].
+  inversion H as [|? ? Ht Hr]; subst. cbn [map concat].
+  apply bytes_ok_app. split; [apply encode_rfc_bytes_ok; exact Ht|apply IH; exact Hr].
+Qed.
+
+Theorem load_sequence : forall L cap ts, Forall (rt_ok L cap) ts ->
+  len (concat (map encode_rfc ts)) < SIZE_MAX ->
+  load_seq L cap (length ts) (concat (map encode_rfc ts)) = Some (map canon ts, []).
+Proof.
+  intros L cap ts. induction ts as [|t r IH]; intros Hok Hlen; [reflexivity|].
+  inversion Hok as [|? ? Ht Hr]; subst.
+  cbn [length map concat load_seq] in *.
+  assert (Hwf : Forall wf_item r).
+  { clear -Hr. induction Hr as [|x l Hx Hl IHl]; constructor; [destruct Hx as [Hx _]; exact Hx|exact IHl]. }
+  rewrite (C03_roundtrip_load L cap t (concat (map encode_rfc r)) Ht (bytes_ok_concat_enc r Hwf) Hlen).
+  rewrite skipnN_app by reflexivity.
+  rewrite IH; [reflexivity|exact Hr|].
+  rewrite len_app in Hlen. pose proof (N.le_0_l (len (encode_rfc t))).
+  eapply N.le_lt_trans; [|exact Hlen]. rewrite N.add_comm. apply N.le_add_r.
+Qed.
+
